@@ -6,14 +6,13 @@ open PyVal (pyEq)
 /-- the only law of the built-in `hash`: equal values hash equal -/
 def C15.Respects {K : Type} (H : PyVal → K) : Prop := ∀ v w, pyEq v w = true → H v = H w
 
-
 section
 variable {K : Type}
 
 def C15.isTyped (f : FeatureId) : Bool := f.dtype.isSome
 /-- `has_similarity_properties()` / `base_similarity_properties()` under the hash function `H` -/
-def C15.simKey (H : PyVal → K) (f : FeatureId) : K := H f.simVal
-def C15.baseKey (H : PyVal → K) (f : FeatureId) : K := H f.baseVal
+def C15.simHash (H : PyVal → K) (f : FeatureId) : K := H f.simVal
+def C15.baseHash (H : PyVal → K) (f : FeatureId) : K := H f.baseVal
 
 /-- group options and framework agree -/
 def C15.AgreeBase (f g : FeatureId) : Prop :=
@@ -24,23 +23,18 @@ def C15.Compat (f g : FeatureId) : Prop :=
   | some a, some b => a = b
   | _, _ => True
 
-/-- the hash keys of the features present identify their option sets (hash-injectivity on what is there) -/
-structure C15.HashInj (H : PyVal → K) (fs : List FeatureId) : Prop where
-  base : ∀ f ∈ fs, ∀ g ∈ fs, H f.baseVal = H g.baseVal → C15.AgreeBase f g
-  sim : ∀ f ∈ fs, ∀ g ∈ fs, C15.isTyped f = true → C15.isTyped g = true → H f.simVal = H g.simVal →
-          C15.AgreeBase f g ∧ f.dtype = g.dtype
-  cross : ∀ f ∈ fs, ∀ g ∈ fs, C15.isTyped f = true → C15.isTyped g = false → H f.simVal ≠ H g.baseVal
-
 /-- at most one declared type per (group options, framework) among the features present -/
 def C15.UniqueTypedPerBase (fs : List FeatureId) : Prop :=
   ∀ f ∈ fs, ∀ g ∈ fs, C15.isTyped f = true → C15.isTyped g = true → C15.AgreeBase f g → f.dtype = g.dtype
 
+/-- the grouping function of the code: keyed by `similarity_key()` / `base_similarity_key()` compared with `==` -/
+def C15.grouping (pick : List FeatureId → Option FeatureId) (fs : List FeatureId) : List (PyVal × List FeatureId) :=
+  OptGroup.groupBy pyEq C15.isTyped FeatureId.simKey FeatureId.baseKey pick fs
 
 /-- hash of a tuple is a function of the hashes of its elements (true of CPython's tuple hash) -/
 def C15.TupleCong (H : PyVal → K) : Prop := ∀ l l' : List PyVal, l.map H = l'.map H → H (.tuple l) = H (.tuple l')
 
 def C15.featX (v : PyVal) : FeatureId :=
   { name := "a", options := ⟨[("x", v)], [], []⟩, domain := none, cfw := none, dtype := none, child := none }
-
 
 end
